@@ -101,6 +101,8 @@ void CommonLoop::runThisAfterLoop()
     if (sp_run_read_event_ != nullptr) {
         CHECK_DELETE_RESET_OBJ(sp_run_read_event_);
         CHECK_CLOSE_RESET_FD(run_event_fd_);
+        //! 唤醒请求随 eventfd 一同作废。队列中剩余的任务由下次 runThisBeforeLoop() 重新提交
+        has_commit_run_req_ = false;
     }
 }
 
